@@ -132,6 +132,28 @@ def run(chk):
             chk.violation("from-pgn", "from_pgn(p).pgn != p", dict(id=i, pgn=p), p, fp.pgn)
         if rng.random() < 0.1:
             add(905, [[p]], [[1, fp.id, fp.pgn]], dict(from_pgn=p))
+        # every call hands out an identifier of its own: editing one result in place (directly or through a frame built
+        # from it) must not change what a later from_pgn(p) returns
+        if rng.random() < 0.25:
+            id0 = fp.id
+            holder = C.Frame("h", arbitration_id=fp, size=8)
+            edit = rng.choice(["sa", "prio", "pgn", "frame"])
+            if edit == "sa":
+                fp.j1939_source = rng.randrange(1, 256)
+            elif edit == "prio":
+                fp.j1939_priority = rng.randrange(1, 8)
+            elif edit == "pgn":
+                fp.pgn = (p + 0x100) & 0x3FFFF
+            else:
+                holder.source = rng.randrange(1, 256)
+                holder.priority = rng.randrange(1, 8)
+                holder.pgn = (p ^ 0x1100) & 0x3FFFF
+            again = C.ArbitrationId.from_pgn(p)
+            chk.case(("from-pgn-after-edit", p, edit), True)
+            chk.count("from_pgn-after-edit")
+            if again.id != id0 or again.pgn != p or recompose(fields(again.id)) != again.id:
+                chk.violation("from-pgn-after-edit", "from_pgn(p) no longer returns the identifier of PGN p after an earlier result was edited in place",
+                              dict(pgn=p, edit=edit), (id0, p), (again.id, again.pgn))
     # standard ids: getters raise
     for i in (0, 1, 0x123, 0x7FF):
         a = C.ArbitrationId(i, False)
